@@ -88,7 +88,8 @@ class C19(Prop):
         "cell centres of real Cartesian / tensor / triangle grids (1-D, 2-D, dyadic node "
         "perturbations, faces with reversed node order to reach the fallback decision) in Q and "
         "compares with relative tolerance 1e-9.  3-D grids (Cartesian, tensor, tetrahedral, "
-        "perturbed) are covered by the exact-fractions oracle only.")
+        "perturbed, boxes tapered to frusta) are covered by the exact-fractions oracle only "
+        "(all identities of the property, incl. positive volumes summing to the domain measure).")
     level_note = (
         "NOT proved: any 3-D statement (C19_3d_normals_sum_zero etc. are not in the development; "
         "the oracle checks all identities numerically on 3-D grids); the legacy convex fallback "
